@@ -38,6 +38,9 @@ void harness_notify_diff(void)
 {
 	vm_install();
 	mk_table(&NEW, tl_update_cb);
+#if defined(TL_SHAPE) && defined(TL_SHAPE_OLD)
+	tl_shape_mask = TL_SHAPE_OLD; /* the old table has its own fixed shape (e.g. empty) */
+#endif
 	mk_table(&OLD, tl_update_cb);
 	tl_snapshot(&NEW, &SN0);
 	tl_snapshot(&OLD, &SO0);
